@@ -20,7 +20,7 @@ static corpus C;
 static const int D[]={1,2,3,4,253,254,255,256,257,258,509,510,511,512,765,1000};
 #define ND ((int)(sizeof D/sizeof D[0]))
 static mc_ctr *c_states,*c_trans,*c_eval,*c_dn,*c_dec,*c_padded,*c_unpadded,*c_ms;
-static mc_set *S_cls;
+static mc_set *S_cls,*S_smp;
 
 typedef struct { int ret; opus_uint32 rng; short *pcm; } dres;
 static int dec1(OpusDecoder *d,const unsigned char *p,int n,int ch,dres *o){
@@ -46,7 +46,8 @@ static void run_chain(const char *what,int sid,cpkt **pk,int np,int ch,int delta
       MC_INC(c_unpadded);
       { unsigned char *b2=malloc(u); memcpy(b2,buf,u); dec1(dC,b2,u,ch,&c); free(b2); }
       if(!same(&ref[i],&c,ch)) { mc_fail("unpad_changes_decoded_audio","stream '%s' %s packet %d (kind %d len %d) padded by %d then unpadded to %d: decode ret %d/%d final range %08x/%08x",C.s[sid].name,what,i,p->kind,p->len,delta,u,ref[i].ret,c.ret,ref[i].rng,c.rng); free(buf); break; }
-      if(ref[i].ret>0){ uint64_t h=mc_mix(mc_mix(sid,delta),p->kind*4+(p->data[0]&3)); if(mc_set_add(S_cls,h)){ MC_INC(c_dn);
+      if(ref[i].ret>0){ uint64_t h=mc_mix(mc_mix(sid,delta),p->kind*4+(p->data[0]&3)); if(mc_set_add(S_cls,h)) MC_INC(c_dn);
+         if(mc_set_add(S_smp,mc_mix(p->kind*4+(p->data[0]&3),rfc_mode(p->data[0])*8+(p->data[0]>>2&1)))){
          mc_sample("stream '%s' %s packet %d (kind %d, code %d, len %d): +%d bytes -> %d samples, final range %08x, PCM identical before/after pad and after unpad (%d bytes)",C.s[sid].name,what,i,p->kind,p->data[0]&3,p->len,delta,ref[i].ret,ref[i].rng,u); } }
       free(buf);
    }
@@ -99,7 +100,7 @@ static void ms_item(int g){
          if(u<=0||u>nl){ mc_fail("ms_unpad_fails_on_padded_encoder_packet","%d mono streams, packet %d padded by %d: %d",S,i,D[di],u); free(buf); break; }
          { unsigned char *b2=malloc(u); memcpy(b2,buf,u); ret=opus_multistream_decode(dC,b2,u,out,5760,0); rng=0; opus_multistream_decoder_ctl(dC,OPUS_GET_FINAL_RANGE(&rng)); free(b2); MC_INC(c_dec); MC_INC(c_trans); }
          if(ret!=rret[i]||rng!=rrng[i]||(ret>0&&memcmp(out,ref[i],sizeof(short)*ret*S))){ mc_fail("ms_unpad_changes_decoded_audio","%d mono streams from '%s', packet %d padded by %d then unpadded to %d: ret %d/%d range %08x/%08x",S,C.s[mono20[base]].name,i,D[di],u,rret[i],ret,rrng[i],rng); free(buf); break; }
-         if(ret>0){ uint64_t h=mc_mix(mc_mix(1000+g,D[di]),7); if(mc_set_add(S_cls,h)){ MC_INC(c_dn); mc_sample("multistream: %d mono 20 ms streams starting at '%s', packet %d (%d bytes) +%d bytes: %d samples/channel, final range %08x, PCM identical before/after ms_pad and after ms_unpad (%d bytes)",S,C.s[mono20[base]].name,i,pl[i],D[di],ret,rng,u); } }
+         if(ret>0){ uint64_t h=mc_mix(mc_mix(1000+g,D[di]),7); if(mc_set_add(S_cls,h)) MC_INC(c_dn); if(mc_set_add(S_smp,mc_mix(77,S))){ mc_sample("multistream: %d mono 20 ms streams starting at '%s', packet %d (%d bytes) +%d bytes: %d samples/channel, final range %08x, PCM identical before/after ms_pad and after ms_unpad (%d bytes)",S,C.s[mono20[base]].name,i,pl[i],D[di],ret,rng,u); } }
          free(buf); }
       opus_multistream_decoder_destroy(dB); opus_multistream_decoder_destroy(dC); }
    for(i=0;i<np;i++) free(ref[i]); free(out);
@@ -112,7 +113,7 @@ int main(int argc,char **argv){
    level=(int)mc_arg("--level",MC.tier?1:0);
    c_states=mc_counter("states"); c_trans=mc_counter("transitions"); c_eval=mc_counter("evaluations"); c_dn=mc_counter("distinct_nontrivial");
    c_dec=mc_counter("decodes"); c_padded=mc_counter("padded_packets_decoded"); c_unpadded=mc_counter("unpadded_packets_decoded"); c_ms=mc_counter("ms_pad_calls");
-   S_cls=mc_set_new(16);
+   S_cls=mc_set_new(16); S_smp=mc_set_new(10);
    corpus_build(&C,level); corpus_add_reframed(&C);
    for(s=0;s<C.ns;s++) if(C.s[s].ch==1&&C.s[s].dur_x10==200&&C.s[s].fs==48000&&nmono20<64) mono20[nmono20++]=s;
    mc_info("audio: corpus level %d: %d streams, %d packets, %d mono 20 ms streams for multistream, %d deltas",level,C.ns,C.n,nmono20,ND);
